@@ -82,6 +82,7 @@ func runCheck(o checkOpts) int {
 
 	var obs []*Obligation
 	var findingLemmas []*LemmaResult
+	findingProved := map[string]bool{}
 	var engineErrs []string
 	trusted := map[string]bool{}
 	var funcsUnder []string
@@ -136,6 +137,22 @@ func runCheck(o checkOpts) int {
 	engineErrs = append(engineErrs, extraErrs...)
 
 	solveAll(obs, timeout, o.seed, 14)
+	// obligations whose PROOF demonstrates a known finding are not proof obligations of the property
+	{
+		var keep []*Obligation
+		for _, ob := range obs {
+			if ob.FindingID == "" {
+				keep = append(keep, ob)
+				continue
+			}
+			if ob.Result != nil && ob.Result.Verdict == VUnsat {
+				findingProved[ob.FindingID] = true
+			} else {
+				fmt.Printf("NOTE: %s is no longer provable; known finding %s may be gone from the code\n", ob.Name, ob.FindingID)
+			}
+		}
+		obs = keep
+	}
 
 	// 4. verdicts
 	type fail struct {
